@@ -29,20 +29,16 @@ class Probe:
             tier="P")
 def o11_1(tier):
     def h(ctx):
-        stmts = ctx.fragment(GM, "generate_mesh", ["each = len(e) / ne", "nEdge.append(e[int(each * i)])"])
+        # anchors: the statement defining the step and the EXPRESSION that picks a sample (the latter survives loop -> comprehension)
+        step = ctx.fragment(GM, "generate_mesh", ["each = len(e) / ne"])
+        pick = ctx.fragment_expr(GM, "generate_mesh", "e[int(each * i)]")
         L, ne, i = ctx.int("L"), ctx.int("ne"), ctx.int("i")
         ctx.assume(ctx.And(ne >= 1, L > ne, i >= 0, i + 1 < ne), "pre")      # i and i+1 both in range(ne)
 
         def idx(iv):
-            if ctx.mode == "sym":
-                e = Probe(L)
-                out = []
-                env = ctx.run_fragment(GM, stmts, dict(e=e, ne=ne, i=iv, nEdge=out))
-                return out[0]
-            lst = list(range(L))
-            out = []
-            ctx.run_fragment(GM, stmts, dict(e=lst, ne=ne, i=iv, nEdge=out))
-            return out[0]
+            e = Probe(L) if ctx.mode == "sym" else list(range(L))
+            env = ctx.run_fragment(GM, step, dict(e=e, ne=ne))
+            return ctx.eval_fragment(GM, pick, dict(e=e, ne=ne, i=iv, each=env["each"]))
         a, b = idx(i), idx(i + 1)
         first = idx(0)
         last = idx(ne - 1)
@@ -53,15 +49,14 @@ def o11_1(tier):
         ctx.ensure(ctx.Implies(L == ne + 1, ctx.And(ctx.eq(a, i), ctx.eq(b, i + 1))), "L = ne+1: every point kept (idempotence on interfaces)")
     def h1(ctx):
         # ne = 1 (range(ne) has the single index 0)
-        stmts = ctx.fragment(GM, "generate_mesh", ["each = len(e) / ne", "nEdge.append(e[int(each * i)])"])
+        step = ctx.fragment(GM, "generate_mesh", ["each = len(e) / ne"])
+        pick = ctx.fragment_expr(GM, "generate_mesh", "e[int(each * i)]")
         L = ctx.int("L")
         ctx.assume(L > 1, "pre")
-        out = []
-        if ctx.mode == "sym":
-            ctx.run_fragment(GM, stmts, dict(e=Probe(L), ne=1, i=0, nEdge=out))
-        else:
-            ctx.run_fragment(GM, stmts, dict(e=list(range(L)), ne=1, i=0, nEdge=out))
-        ctx.ensure(ctx.eq(out[0], 0), "ne = 1: only the first end is sampled (the last is appended)")
+        e = Probe(L) if ctx.mode == "sym" else list(range(L))
+        env = ctx.run_fragment(GM, step, dict(e=e, ne=1))
+        got = ctx.eval_fragment(GM, pick, dict(e=e, ne=1, i=0, each=env["each"]))
+        ctx.ensure(ctx.eq(got, 0), "ne = 1: only the first end is sampled (the last is appended)")
     return [("symbolic-L-ne-i", h), ("ne=1", h1)]
 
 
@@ -97,7 +92,11 @@ def o11_2(tier):
                        f"{e} with {cells_at_ends} cells at its ends: queued for contraction iff two points and both ends in fewer than three cells")
     def h_cells(ctx):
         # only a cell that lost ALL its vertices is dropped (a cell reduced to two junctions at ne=1 stays)
-        frag = ctx.fragment(GM, "generate_mesh", ["cells_to_remove = []", "for c in cells.keys():"])
+        from fvc.harness import AnchorNotFound
+        try:
+            frag = ctx.fragment(GM, "generate_mesh", ["cells_to_remove = []", "for c in cells.keys():"])
+        except AnchorNotFound:
+            frag = ctx.fragment(GM, "generate_mesh", ["cells_to_remove = ["])         # the same selection written as a comprehension
         C = cls(ctx, "forsys.cell", "Cell")
         V = cls(ctx, "forsys.vertex", "Vertex")
         vs = [ctx.call(V, 70 + i, 0.0, 0.0) for i in range(4)]
